@@ -32,6 +32,7 @@ struct E1Config {
     size_t replayCap = 100000;  // canon-on-replay for at most this many stored states
     int silentSuffix = 0;       // >= 2: from every stored state, all op sequences of this length without observers in between
     size_t silentSuffixStates = 1000000;
+    unsigned long long stopAfterViolations = 2000;
     bool silentReduced = false; // silent-suffix pass uses one value per value-carrying operation kind
 };
 
@@ -250,7 +251,7 @@ template <class G> class Explorer {
     void run() {
         std::deque<int> frontier;
         int maxDepthSeen = 0;
-        bool depthCapped = false, stateCapped = false;
+        bool depthCapped = false, stateCapped = false, stoppedEarly = false;
         for (unsigned n0 : cfg.startSizes) {
             breadcrumb(cfg.name + " construct G(" + std::to_string(n0) + ")");
             G g(n0);
@@ -271,6 +272,11 @@ template <class G> class Explorer {
         }
         while (!frontier.empty()) {
             if (clock_().expired()) { rep.cap("deadline reached with " + std::to_string(frontier.size()) + " states unexpanded"); break; }
+            if (rep.violations() > cfg.stopAfterViolations) { // the verdict is decided; a broken implementation may have an unbounded state space
+                rep.cap(cfg.name + ": search stopped after more than " + std::to_string(cfg.stopAfterViolations) + " clause failures");
+                stoppedEarly = true;
+                break;
+            }
             int s = frontier.front();
             frontier.pop_front();
             if (cfg.maxDepth >= 0 && recs[s].depth >= cfg.maxDepth) { depthCapped = true; continue; }
@@ -355,7 +361,7 @@ template <class G> class Explorer {
 
         // C06: all pairs of stored states
         unsigned long long pairs = 0;
-        if (cfg.allPairs && (prop.empty() || prop == "C06")) {
+        if (cfg.allPairs && (prop.empty() || prop == "C06") && !stoppedEarly) {
             size_t lim = std::min(recs.size(), cfg.allPairsCap);
             if (recs.size() > lim) rep.cap(cfg.name + ": all-pairs comparison limited to the first " + std::to_string(lim) + " states");
             for (size_t a = 0; a < lim; ++a) {
@@ -386,7 +392,7 @@ template <class G> class Explorer {
 
         // stateless pass: every history up to the given depth, no de-duplication
         unsigned long long histories = 0;
-        if (cfg.statelessDepth > 0 && cfg.maxDepth < 0 && !stateCapped && !clock_().expired()) {
+        if (cfg.statelessDepth > 0 && cfg.maxDepth < 0 && !stateCapped && !stoppedEarly && !clock_().expired()) {
             std::vector<Op> h;
             std::function<void(const G &, const Model &, int, unsigned)> dfs = [&](const G &g, const Model &m, int depth, unsigned start) {
                 ++histories;
@@ -436,7 +442,7 @@ template <class G> class Explorer {
         // after every step) apply K operations WITHOUT observing in between, then observe everything.
         // This is what exposes a cache that is filled by an observer and not invalidated by a mutator.
         unsigned long long silentRuns = 0;
-        if (cfg.silentSuffix >= 2) {
+        if (cfg.silentSuffix >= 2 && !stoppedEarly) {
             size_t lim = std::min(recs.size(), cfg.silentSuffixStates);
             if (recs.size() > lim) rep.cap(cfg.name + ": silent-suffix pass limited to the first " + std::to_string(lim) + " states (BFS order)");
             std::vector<Op> suffix;
@@ -474,6 +480,7 @@ template <class G> class Explorer {
             };
             for (size_t s = 0; s < lim; ++s) {
                 if (clock_().expired()) { rep.cap(cfg.name + ": deadline reached during the silent-suffix pass at state " + std::to_string(s)); break; }
+                if (rep.violations() > cfg.stopAfterViolations) { rep.cap(cfg.name + ": silent-suffix pass stopped after more than " + std::to_string(cfg.stopAfterViolations) + " clause failures"); break; }
                 breadcrumb(cfg.name + " silent-suffix from state#" + std::to_string(s));
                 go(recs[s].g, recs[s].m, 0, s);
             }
